@@ -91,3 +91,22 @@ Example C03_nonvacuous :
   fs_safe (applies fs0 (firstn 6 (receive_calls 1 7 [4; 6]%nat))) = true /\ visible (applies fs0 (receive_calls 1 7 [4; 6]%nat)) = [7%N].
 Proof. vm_compute. repeat split; reflexivity. Qed.
 Print Assumptions C03_nonvacuous.
+
+(* the duplicate rule of ReceiveBlob: the source regenerated today compares the size of the pack file with the END of the
+   indexed extent; then an upload heals a pack whose tail was lost although the index row survived (a state this code's
+   own crashes cannot produce - the row is written after the data is synced - but a lying disk or a truncated copy can) *)
+Theorem C03_dup_rule_source : dp_dup_checks_extent_end = true.
+Proof. reflexivity. Qed.
+Print Assumptions C03_dup_rule_source.
+
+Theorem C03_lost_tail_heals : forall s r size have, (have < size)%nat ->
+  let s1 := dstep true s (DLostTail r size have) in
+  dfetch s1 r = FCorrupt /\ dfetch (receive_with dp_dup_checks_extent_end s1 r size) r = FIntact.
+Proof. exact C03.lost_tail_heals. Qed.
+Print Assumptions C03_lost_tail_heals.
+
+Theorem C03_start_only_rule_refuted :
+  let s1 := dstep true (receive dp0 1 10) (DLostTail 2 10 3) in
+  dfetch (receive_with false s1 2 10) 2 = FCorrupt /\ dfetch (receive_with true s1 2 10) 2 = FIntact.
+Proof. exact C03.start_only_rule_does_not_heal. Qed.
+Print Assumptions C03_start_only_rule_refuted.
